@@ -341,22 +341,43 @@ func (vc *VC) iteVals(base string, conds []Term, vs []Val, typ types.Type) Val {
 		if same {
 			return vs[0]
 		}
-		allRef := true
+		// places of the same shape (same component, same path structure): merge refs and indices
+		shape := true
+		p0 := vs[0].P
 		for _, v := range vs {
-			if v.P == nil || !((v.P.Kind == BPtr || v.P.Kind == BArr) && len(v.P.Path) == 0) || v.P.Comp != vs[0].P.Comp {
-				allRef = false
+			if v.P == nil || v.P.Kind != p0.Kind || v.P.Comp != p0.Comp || len(v.P.Path) != len(p0.Path) || (p0.Kind != BPtr && p0.Kind != BArr && v.P.Comp != p0.Comp) {
+				shape = false
+				break
+			}
+			for j := range p0.Path {
+				if v.P.Path[j].IsIndex != p0.Path[j].IsIndex || v.P.Path[j].Field != p0.Path[j].Field {
+					shape = false
+				}
 			}
 		}
-		if !allRef {
+		if !shape {
 			vc.errorf("phi/merge of pointers to different kinds of places (%s)", base)
 			return vs[0]
 		}
-		acc := vs[len(vs)-1].P.Ref
-		for i := len(vs) - 2; i >= 0; i-- {
-			acc = tIte(conds[i], vs[i].P.Ref, acc)
+		np := *p0
+		np.Path = append([]PathElem{}, p0.Path...)
+		if p0.Kind == BPtr || p0.Kind == BArr {
+			acc := vs[len(vs)-1].P.Ref
+			for i := len(vs) - 2; i >= 0; i-- {
+				acc = tIte(conds[i], vs[i].P.Ref, acc)
+			}
+			np.Ref = vc.define(base, acc)
 		}
-		np := *vs[0].P
-		np.Ref = vc.define(base, acc)
+		for j := range np.Path {
+			if !np.Path[j].IsIndex {
+				continue
+			}
+			acc := vs[len(vs)-1].P.Path[j].Index
+			for i := len(vs) - 2; i >= 0; i-- {
+				acc = tIte(conds[i], vs[i].P.Path[j].Index, acc)
+			}
+			np.Path[j].Index = vc.define(base+"!i", acc)
+		}
 		return Val{P: &np}
 	}
 	acc := vs[len(vs)-1].T
